@@ -237,6 +237,54 @@ def nonevalue(v: int, w: int, nt: int, t: int, ke: int, asg: int, recalc: bool, 
     return check(r[0] == "ok" and r[1] == exp_tot(ke), "dependant after the later operation", lambda: (r, exp_tot(ke)))
 
 
+@harness
+def recalc_fail(v: int, w: int, t: int, second: int) -> bool:
+    """With recalculation on, a dependant that FAILS while being recomputed must not cost the assigned value its input
+    status: rate[t] = 0 makes inverse(t) = 1 // rate(t) raise during the immediate recomputation."""
+    t, second = pick(t, 0, 2), pick(second, 0, 3)
+    with notrace():
+        m = new_model("RF")
+        S = m.new_space("S")
+        m.hit = hit
+        S.v, S.w = 0, 0
+        S.new_cells("rate", formula="def rate(t):\n    hit(0, t)\n    return v + t * t + 1\n")
+        S.new_cells("inverse", formula="def inverse(t):\n    hit(1, t)\n    return 100 // rate(t)\n")
+        S.new_cells("total", formula="def total(t):\n    hit(2, t)\n    return inverse(t) + w\n")
+        S.v, S.w = v, w
+    rate, total = S.cells["rate"], S.cells["total"]
+    if v + t * t + 1 == 0:
+        return True
+    r = call(total, t)
+    if not check(r[0] == "ok", "initial evaluation", lambda: r):
+        return False
+    mx.set_recalc(True)
+    label("recalc on; rate[%d] = 0 (the recomputed dependant divides by zero)" % t)
+    e = call(rate.__setitem__, t, 0)
+    mx.set_recalc(False)
+    if not check(e[0] == "err" and e[1] == "ZeroDivisionError", "the failing recomputation is reported", lambda: e):
+        return False
+    if not check(executor_idle(), "executor idle after the failed recomputation"):
+        return False
+    with notrace():
+        held = t in [k_[0] if isinstance(k_, tuple) else k_ for k_ in dict(rate)]
+        isin = held and rate.is_input(t)
+    if not check(isin, "the assigned value is held as an input although a dependant failed"):
+        return False
+    label("then %s" % ("nothing", "rate.clear()", "S.clear_cells / reference change", "repair")[second])
+    if second == 1:
+        rate.clear()
+    elif second == 2:
+        S.w = w + 1
+        w = w + 1
+    n0 = len(ctx.hits)
+    r = call(rate, t)
+    if not check(r[0] == "ok" and r[1] == 0 and len(ctx.hits) == n0, "the assigned value is still what the cells returns", lambda: (r, ctx.hits[n0:])):
+        return False
+    rate[t] = 5
+    r = call(total, t)
+    return check(r[0] == "ok" and r[1] == 20 + w, "after repairing the input everything evaluates", lambda: (r, 20 + w))
+
+
 _NAT = dict(v0=1, v1=2, v2=3, z=4, g=5, p1_1=0, p2_1=-1, p1_2=1, p2_2=0, T0=False, T1=True, T2=True)
 _Z0 = dict(zsel=0, pre_ref=False, zz=0)
 
@@ -280,4 +328,10 @@ QUERIES.append(
           bounds=lambda tier: {"model": "opt(t) returns None at one symbolic t, tot(t) depends on it; allow_none on the space", "assigned": ["None", "7", "symbolic w"],
                                "t": "0..2", "recalc": [False, True], "follow_up": ["none", "clear()", "assignment elsewhere", "reference change"]},
           outside=["None in cells with several parameters"]))
+QUERIES.append(
+    Query("recalc_fail", recalc_fail, pre=["0 <= t <= 2", "0 <= second <= 3"],
+          partitions=lambda tier, seed: [dict(second=k_) for k_ in range(4)],
+          natives=[dict(v=3, w=4, t=1, second=k_) for k_ in range(4)],
+          bounds=lambda tier: {"model": "rate(t) <- inverse(t) = 100 // rate(t) <- total(t)", "t": "0..2", "v, w": "unbounded", "follow_up": ["none", "clear()", "reference change", "repair"]},
+          outside=[]))
 BUDGET = {"quick": 400, "thorough": 1200}
